@@ -13,15 +13,18 @@ import (
 	"crypto/tls"
 	"fmt"
 	"io"
+	"log"
 	"net"
 	"net/url"
 	"os"
 	"strings"
 	"sync"
+	"sync/atomic"
 	"testing"
 	"time"
 
 	"github.com/fabiolb/fabio/internal/verifx"
+	"github.com/fabiolb/fabio/logger"
 	"github.com/fabiolb/fabio/route"
 )
 
@@ -305,4 +308,84 @@ func TestVerifC10Glue(t *testing.T) {
 	}
 	verifx.Summary(map[string]any{"hellos": len(hellos), "ran": ran, "evaluations": evals, "fragmented_not_judged": fragmented,
 		"hangs": hangs, "over4096": big, "sizes": sizes})
+}
+
+// TestVerifC10GlueReject: the inputs the specification rejects because a length runs past its
+// container or the available bytes (class reject, must) are offered to the real
+// SNIProxy.ServeTCP over loopback, under every log level fabio can be configured with
+// (log.level, installed the way main does: a logger.LevelWriter as the log output).  Judged is
+// what the proxy does: no route lookup, no upstream connection, the client's connection is
+// ended - and the process survives (a panic in a connection handler kills fabio).
+func TestVerifC10GlueReject(t *testing.T) {
+	cases, err := verifx.ReadCases[c10Case]("VERIF_IN")
+	if err != nil {
+		t.Fatal(err)
+	}
+	lane := &c10GlueLane{}
+	if lane.upL, lane.upAddr, err = verifx.ListenFree(); err != nil {
+		t.Fatal(err)
+	}
+	defer lane.upL.Close()
+	ln, addr, err := verifx.ListenFree()
+	if err != nil {
+		t.Fatal(err)
+	}
+	lane.addr = addr
+	lane.srv = &Server{Addr: addr, Handler: &SNIProxy{Lookup: lane.lookup}}
+	go lane.srv.Serve(ln)
+	defer lane.srv.Close()
+	// upstream: whoever connects is recorded
+	var upConns int64
+	go func() {
+		for {
+			c, err := lane.upL.Accept()
+			if err != nil {
+				return
+			}
+			atomic.AddInt64(&upConns, 1)
+			go func() { io.Copy(io.Discard, c); c.Close() }()
+		}
+	}()
+	old := log.Writer()
+	defer log.SetOutput(old)
+	levels := []string{"TRACE", "DEBUG", "INFO", "WARN"}
+	perLevel := map[string]int{}
+	var ran, hangs int64
+	for i := range cases {
+		c := &cases[i]
+		level := levels[i%len(levels)]
+		log.SetOutput(logger.NewLevelWriter(io.Discard, level, "2017/01/01 00:00:00 "))
+		perLevel[level]++
+		raw := c.raw()
+		lane.takeHosts()
+		before := atomic.LoadInt64(&upConns)
+		cc, err := net.DialTimeout("tcp", addr, 10*time.Second)
+		if err != nil {
+			verifx.Emit(map[string]any{"kind": "hang", "msg": "dial proxy: " + err.Error()})
+			hangs++
+			continue
+		}
+		cc.SetDeadline(time.Now().Add(10 * time.Second))
+		cc.Write(raw)
+		cc.(*net.TCPConn).CloseWrite()
+		_, rerr := io.ReadAll(cc)
+		cc.Close()
+		ran++
+		if ne, ok := rerr.(net.Error); ok && ne.Timeout() {
+			hangs++
+			verifx.Emit(map[string]any{"kind": "hang", "msg": fmt.Sprintf("%s %+v: the connection was not ended within 10 s", c.Tpl, c.Corr)})
+			if hangs >= 3 {
+				break
+			}
+			continue
+		}
+		hosts := lane.takeHosts()
+		if len(hosts) > 0 || atomic.LoadInt64(&upConns) != before {
+			cc2 := *c
+			cc2.Origin = "glue-reject log.level=" + level
+			verifx.Fail(cc2, map[string]any{"part": "glue", "clause": "malformed-hello-routed", "why": c.Why, "corr": c.Corr.Kind},
+				"a hello in which a length runs past its container (%s, %s %+v) was routed by the proxy (lookup %q) instead of being rejected", c.Why, c.Tpl, c.Corr, hosts)
+		}
+	}
+	verifx.Summary(map[string]any{"cases": len(cases), "ran": ran, "hangs": hangs, "levels": perLevel})
 }
